@@ -595,6 +595,85 @@ std::vector<Workload> CuratedWorkloads() {
     w.qb[4] = 10;
     out.push_back(w);
   }
+  // Meshes with handles (3x3 and 3x4 torus): the only streams that carry
+  // topology split events, i.e. the side channel of the Edgebreaker traversal.
+  for (int k = 0; k < 3; ++k) {
+    Workload w;
+    w.kind = 0;
+    w.topo = 1;
+    w.n = k == 2 ? 24 : 18;
+    w.gseed = ++gs;
+    AttDesc pos;
+    w.atts.push_back(pos);
+    if (k == 2) {
+      AttDesc t;
+      t.type = draco::GeometryAttribute::TEX_COORD;
+      t.nc = 2;
+      t.mode = 1;
+      w.atts.push_back(t);
+    }
+    w.method = 1;
+    w.eb_method = k == 1 ? 2 : 0;
+    w.qb[0] = 10;
+    w.qb[3] = 9;
+    w.espeed = w.dspeed = k == 1 ? 0 : 5;
+    out.push_back(w);
+  }
+  // Older bitstreams (legacy-writer stub, see work.h): sequential meshes of
+  // bitstream 2.1 with 8 / 16 bit raw, and entropy coded indices; pre-2.3
+  // kd-tree point clouds (integer and float method).
+  for (int k = 0; k < 4; ++k) {
+    Workload w;
+    w.kind = 0;
+    w.topo = 0;
+    // k == 3: 24000 faces with a per-face attribute = about 70000 points, the
+    // 32-bit raw index layout of bitstreams older than 2.2.
+    w.n = k == 1 ? 560 : (k == 3 ? 24000 : 10);
+    w.jit = k == 3 ? 0 : 1;
+    w.gseed = ++gs;
+    AttDesc pos;
+    w.atts.push_back(pos);
+    AttDesc g;
+    g.type = draco::GeometryAttribute::GENERIC;
+    g.dt = draco::DT_UINT8;
+    g.nc = 1;
+    g.mode = k == 3 ? 2 : 0;
+    w.atts.push_back(g);
+    w.method = 0;
+    w.compress_conn = k == 2 ? 1 : 0;
+    w.qb[0] = 10;
+    w.pred[0] = k == 3 ? 0 : 1;
+    w.espeed = w.dspeed = 5;
+    w.legacy = 1;
+    out.push_back(w);
+  }
+  for (int k = 0; k < 3; ++k) {
+    Workload w;
+    w.kind = 1;
+    w.topo = 0;
+    w.n = 12 + 5 * k;
+    w.gseed = ++gs;
+    AttDesc pos;
+    pos.dt = k == 0 ? draco::DT_UINT16 : (k == 1 ? draco::DT_UINT32 : draco::DT_FLOAT32);
+    w.atts.push_back(pos);
+    if (k == 1) {
+      AttDesc c;
+      c.type = draco::GeometryAttribute::COLOR;
+      c.dt = draco::DT_UINT8;
+      c.nc = 3;
+      w.atts.push_back(c);
+      AttDesc g;
+      g.type = draco::GeometryAttribute::GENERIC;
+      g.dt = draco::DT_UINT16;
+      g.nc = 1;
+      w.atts.push_back(g);
+    }
+    w.method = 1;
+    w.qb[0] = 10;
+    w.espeed = w.dspeed = 2 + 3 * k;
+    w.legacy = k == 2 ? 3 : 2;
+    out.push_back(w);
+  }
   return out;
 }
 
@@ -786,6 +865,47 @@ class Batch {
       ws.push_back(GenerateWorkload(r.Fork(2000 + i), 1));
     for (int i = 0; i < tier_.gen_l; ++i)
       ws.push_back(GenerateWorkload(r.Fork(3000 + i), 2));
+    // A sixth of the generated substrates goes through the legacy-writer stub
+    // (older bitstream versions of the same geometry).
+    for (size_t i = n_curated; i < ws.size(); ++i) {
+      Rng lr = r.Fork(5000 + i);
+      if (!lr.Chance(1, 6)) continue;
+      Workload &w = ws[i];
+      if (w.kind == 0) {
+        w.method = 0;
+        w.meta = 0;
+        w.legacy = 1;
+      } else if (w.kind == 1) {
+        w.method = 1;
+        w.meta = 0;
+        w.expert = 0;
+        if (lr.Chance(1, 3)) {
+          w.atts.resize(1);
+          w.atts[0].dt = draco::DT_FLOAT32;
+          if (w.qb[0] <= 0) w.qb[0] = 11;
+          w.legacy = 3;
+        } else {
+          for (AttDesc &d : w.atts) {
+            switch (d.dt) {
+              case draco::DT_INT8:
+                d.dt = draco::DT_UINT8;
+                break;
+              case draco::DT_INT16:
+                d.dt = draco::DT_UINT16;
+                break;
+              case draco::DT_UINT8:
+              case draco::DT_UINT16:
+              case draco::DT_UINT32:
+                break;
+              default:
+                d.dt = draco::DT_UINT32;
+                break;
+            }
+          }
+          w.legacy = 2;
+        }
+      }
+    }
     for (size_t i = 0; i < ws.size(); ++i) {
       Substrate s;
       s.w = ws[i];
@@ -1656,6 +1776,71 @@ int ChanCanary(const ChanOptions &opt) {
     e["ok"] = ok;
     if (!ok) all_ok = false;
     arr.push(e);
+  }
+  // Legacy-writer stub: every curated older-bitstream substrate must be
+  // accepted by the real decoder and (for the byte-level downgrades) decode to
+  // exactly the geometry of the current-version stream it was made from.
+  {
+    auto decode = [](const std::vector<uint8_t> &b, uint64_t *digest,
+                     uint32_t *np) {
+      draco::DecoderBuffer db;
+      db.Init(reinterpret_cast<const char *>(b.data()), b.size());
+      draco::Decoder d;
+      if (b.size() > 7 && b[7] == 1) {
+        auto m = d.DecodeMeshFromBuffer(&db);
+        if (!m.ok()) return false;
+        std::string det;
+        if (!ValidateGeometry(*m.value(), m.value().get(), true, &det).empty())
+          return false;
+        *digest = GeometryDigest(*m.value(), m.value().get());
+        *np = m.value()->num_points();
+      } else {
+        auto m = d.DecodePointCloudFromBuffer(&db);
+        if (!m.ok()) return false;
+        std::string det;
+        if (!ValidateGeometry(*m.value(), nullptr, true, &det).empty())
+          return false;
+        *digest = GeometryDigest(*m.value(), nullptr);
+        *np = m.value()->num_points();
+      }
+      return true;
+    };
+    int li = 0;
+    for (const Workload &w : CuratedWorkloads()) {
+      if (!w.legacy) continue;
+      Json e = Json::Object();
+      e["canary"] = "legacy_stub:" + std::to_string(li++) + ":kind" +
+                    std::to_string(w.legacy);
+      e["expected"] = "accepted_and_same_geometry_as_current_stream";
+      std::string got_s = "accepted_and_same_geometry_as_current_stream";
+      std::vector<uint8_t> old_bytes, cur_bytes;
+      std::string err;
+      uint64_t d_old = 0, d_cur = 1;
+      uint32_t np_old = 0, np_cur = 0;
+      Workload cur = w;
+      cur.legacy = 0;
+      if (!EncodeWorkload(w, &old_bytes, &err)) {
+        got_s = "stub_failed:" + err;
+      } else if (!decode(old_bytes, &d_old, &np_old)) {
+        got_s = "rejected_by_decoder";
+      } else if (!EncodeWorkload(cur, &cur_bytes, &err) ||
+                 !decode(cur_bytes, &d_cur, &np_cur)) {
+        got_s = "current_stream_failed";
+      } else if (w.legacy == 3 ? np_old != np_cur : d_old != d_cur) {
+        got_s = "decodes_to_other_geometry";
+      } else if (w.legacy == 1 && w.n >= 20000 && np_old < 65536) {
+        got_s = "too_few_points_for_32bit_indices:" + std::to_string(np_old);
+      }
+      e["got"] = got_s;
+      e["version"] = old_bytes.size() > 6
+                         ? std::to_string(old_bytes[5]) + "." + std::to_string(old_bytes[6])
+                         : "?";
+      e["bytes"] = static_cast<unsigned long long>(old_bytes.size());
+      const bool ok = got_s == "accepted_and_same_geometry_as_current_stream";
+      e["ok"] = ok;
+      if (!ok) all_ok = false;
+      arr.push(e);
+    }
   }
   Json out = Json::Object();
   out["canaries"] = arr;
